@@ -515,7 +515,10 @@ def desugar_adaptor(fa, f_d, bb, body_obj):
         pre.append({"l": [L_acc], "r": {"k": "use", "o": call["a"][1]}, "ln": ln, "x": "desugar:adaptor"})
     blocks[bb]["s"] = pre
     blocks[bb]["term"] = {"k": "goto", "t": H, "ln": ln, "x": "desugar:%s" % kind}
-    nxt = {"k": {"ty": "fn", "fn": "std::iter::Iterator::next", "fnfull": "<%s as std::iter::Iterator>::next" % it_ty}}
+    # `res` marks the call as resolved to a non-workspace function: the call graph must not fan out to every workspace
+    # impl of Iterator::next (the adaptor ran on whatever iterator it was given, which the original call never exposed)
+    nxt = {"k": {"ty": "fn", "fn": "std::iter::Iterator::next", "fnfull": "<%s as std::iter::Iterator>::next" % it_ty,
+                 "res": "std::iter::Iterator::next"}}
     blocks.append({"s": [{"l": [L_ref], "r": {"k": "ref", "mut": True, "p": [L_it]}, "ln": ln}],
                    "term": {"k": "call", "f": nxt, "a": [{"mv": [L_ref]}], "d": [L_opt], "t": S, "u": None, "ln": ln, "x": "desugar:ForLoop"}})
     blocks.append({"s": [{"l": [L_dis], "r": {"k": "discr", "p": [L_opt], "enum": "std::option::Option",
